@@ -4,7 +4,7 @@ from . import core
 from .ringgen import random_sched
 
 HEADER = "From RM Require Import RingModel FullSync Chan."
-XHEADER = "From RM Require Import RingModel FullSync Chan Reserve ChanX ChanW ZeroCopy ZcUni ChanZ."
+XHEADER = "From RM Require Import RingModel FullSync Chan Reserve ChanX ChanW ZeroCopy ZcUni ChanZ ChanXb."
 ZRUNNERS = {"zc_atomic": "ZC.run_uni_zc_atomic", "zc_full_sync": "ZC.run_uni_zc_fullsync"}
 ZOPS = ("send", "sendw", "poll", "drive", "cancel_all", "len")
 def strip_handle_drops(flat):
@@ -42,6 +42,14 @@ def coq_xop(op):
     if n == "senda": return "XoSendAsync %d" % a[0]
     return "XoBase (%s)" % coq_op(op)
 
+def coq_bop(op):
+    """the crossbeam Uni channel (Chan/ChanXb.v): send / send_with (send_with_async with a ready setter performs the same accesses) are the layer's own operations"""
+    n, a = op
+    if n == "send": return "BoSend %d" % a[0]
+    if n in ("sendw", "senda"): return "BoSendWith %d" % a[0]
+    return "BoBase (%s)" % coq_op(op)
+BOPS = ("send", "sendw", "senda", "poll", "drive", "cancel_all", "len")
+
 RUNNERS = {"move_atomic": "run_uni_atomic", "move_full_sync": "run_uni_fullsync"}
 XRUNNERS = {"move_atomic": "run_unix_atomic"}
 ACCEPT_OPS = ("send", "sendw", "senda")
@@ -60,6 +68,10 @@ def mk_case(chan, N, M, k, origin, progs, sched, meta=None, probe=False):
         # the zero-copy Uni channels: machine of Chan/ChanZ.v over the pool + id-ring component of Alloc/ZcUni.v
         coq = "%s %d %d %d [%s] [%s]%%nat" % (ZRUNNERS[chan], N, M, k,
                 "; ".join("[" + "; ".join(coq_op(o) for o in p) + "]" for p in progs), "; ".join(map(str, sched)))
+    elif chan == "crossbeam" and not probe and not switching and origin == 0 and all(n in BOPS for p in progs for n, a in p):
+        # the crossbeam Uni channel: the send entry points of Chan/ChanXb.v over an atomic FIFO (crossbeam's queue, one step per call)
+        coq = "run_uni_crossbeam %d %d %d [%s] [%s]%%nat" % (N, M, k,
+                "; ".join("[" + "; ".join(coq_bop(o) for o in p) + "]" for p in progs), "; ".join(map(str, sched)))
     elif chan not in RUNNERS or probe or switching:
         coq = None                                                # a kind without a lock-step model: judged by the oracles only
     elif ext and chan in XRUNNERS:
@@ -285,9 +297,10 @@ def uni_oracle_exactly_once(case, recs):
         if r[0] == "panic": hits.append((None, "panic (kind %d) in thread %d" % (r[2], r[1])))
     return hits
 
-def op_intervals(case, recs):
+def op_intervals(case, recs, with_open=False):
     """per operation: (thread, index in its program, name, args, position of its first access (or of the thread's previous return when it
-    has no access of its own), position of its return record, return code) - positions are indices into recs"""
+    has no access of its own), position of its return record, return code) - positions are indices into recs.  with_open: also the
+    operations that began (made an access) and had not returned when the run ended - return position len(recs), return code None"""
     progs = case.meta["progs"]
     pos = {}; first = {}; prev_ret = {}; out = []
     for i, r in enumerate(recs):
@@ -307,6 +320,11 @@ def op_intervals(case, recs):
                 continue
             out.append((t, j, n, a, first.get(t, prev_ret.get(t, 0)), i, r[2]))
             first.pop(t, None); prev_ret[t] = i; pos[t] = j + 1
+    if with_open:
+        for t, i0 in sorted(first.items()):
+            j = pos.get(t, 0)
+            if j < len(progs[t]) and progs[t][j][0] not in ("drive", "drivem"):
+                out.append((t, j, progs[t][j][0], progs[t][j][1], i0, len(recs), None))
     return out
 
 ZC_KINDS = ("zc_atomic", "zc_full_sync")
@@ -339,9 +357,7 @@ def uni_oracle_justified_full(case, recs):
     delivered event gave its slot back (movable kinds: the yield; zero-copy kinds: the drop of the handle, record 17).  A rejection
     during which that bound never reaches BUFFER_SIZE is unjustified."""
     N = case.meta["N"]; chan = case.meta["chan"]
-    ops = op_intervals(case, recs)
-    delta = {}
-    def add(p, d): delta[p] = delta.get(p, 0) + d
+    ops = op_intervals(case, recs, with_open=True)     # (a send that began and never returned - e.g. spinning behind a reservation - holds a slot)
     occupying = [o for o in ops if o[2] in ACCEPT_OPS + ("res",)]
     rel_code = 17 if chan in ZC_KINDS else 12
     releases = [i for i, r in enumerate(recs) if r[0] == "ret" and (r[2] == rel_code or r[2] == 24)]
@@ -462,6 +478,10 @@ def oracle_lost_wakeup(case, recs):
             if k >= 2: cls = "C04.ring.multi_consumer"
             elif sends_overlap(case, recs): cls = "C04.ring.overlapping_sends"
             elif consumer_inside_a_send(case, recs): cls = "C04.ring.stale_length_sample"
+        elif case.meta["chan"] == "crossbeam":
+            # the crossbeam channel decides from the length sampled BEFORE its try_send (len_before <= 2): known finding F17 whenever
+            # that sample can be stale, i.e. another thread acted inside some send
+            if sends_overlap(case, recs) or consumer_inside_a_send(case, recs): cls = "C04.crossbeam.stale_length_sample"
         return [(cls, "lost wake-up: %d accepted event(s) pending, all producers returned, every stream parked and not notified" % (ok - yl))]
     return []
 
